@@ -174,7 +174,18 @@ def run(rep):
             # negative conditions: earlier match arms on the same scrutinee are fine; anything else (`if seen || big { return }`) stops the closure early
             _, neg_ = split(e['cond'])
             extra += [('not', c) for c in neg_ if not (c[0] == 'is' and c[1] == inner)]
-            loops_ok = all(l[2] == [] for l in e['loops'])
+            def visited_precheck(c_):
+                # `.filter(|ty| !types.contains(ty))` before the recursive call: a type that is in the set already has been visited - skipping it
+                # loses nothing (the callee would return at once)
+                while c_[0] == 't':
+                    c_ = c_[1]
+                if c_[0] != 'not':
+                    return False
+                c_ = c_[1]
+                while c_[0] == 't':
+                    c_ = c_[1]
+                return c_[0] == 'mcall' and c_[2] == 'contains' and c_[1] == Sx and len(c_[3]) == 1
+            loops_ok = all(all(visited_precheck(c_) for c_ in l[2]) for l in e['loops'])
             rep.check(not extra and loops_ok, 'C08.closure', key, cwhere, f'followed only under {[E.show(c, maxdepth=4) for c in extra][:2]} / filtered loop', ok_detail='followed unconditionally')
             ok_pass = e['args'][sidx[0]] == Sx and e['args'][midx[0]] == M
             rep.check(ok_pass, 'C08.closure', key + ':params', cwhere, 'set/module are not passed on unchanged', ok_detail='set and module passed unchanged')
